@@ -242,23 +242,30 @@ def eval_dist(rp):
                 core.flist(ones), core.cmat(y), core.cmat(cy), core.cmat(tap1.calls[0]), core.cmat(tap2.calls[0]))
             return None, None, coq
         if kind == 'watson_fit':
-            m1 = d.ComplexWatsonTrainer().fit(y, saliency=sal)
-            m2 = d.ComplexWatsonTrainer().fit(cy, saliency=sal)
+            # one trainer object for both recordings (seed parity), optionally constructed with the dimension
+            T1 = d.ComplexWatsonTrainer(dimension=D) if rp['seed'] % 3 == 0 else d.ComplexWatsonTrainer()
+            T2 = T1 if rp['seed'] % 2 == 0 else d.ComplexWatsonTrainer()
+            m1 = T1.fit(y, saliency=sal)
+            m2 = T2.fit(cy, saliency=sal)
             p1, p2 = np.outer(m1.mode, m1.mode.conj()), np.outer(m2.mode, m2.mode.conj())
             if rel(p1, p2) > tol or rel(m1.concentration, m2.concentration) > 1e-7:
                 return ('ComplexWatsonTrainer.fit(c*y): mode projector differs by %.3g, concentration by %.3g'
                         % (rel(p1, p2), rel(m1.concentration, m2.concentration))), 'dist:watson:fit', None
             return None, None, None
         if kind == 'bingham_fit':
-            m1 = ComplexBinghamTrainer().fit(y, saliency=sal)
-            m2 = ComplexBinghamTrainer().fit(cy, saliency=sal)
+            T1 = ComplexBinghamTrainer(dimension=D) if rp['seed'] % 3 == 0 else ComplexBinghamTrainer()
+            T2 = T1 if rp['seed'] % 2 == 0 else ComplexBinghamTrainer()
+            m1 = T1.fit(y, saliency=sal)
+            m2 = T2.fit(cy, saliency=sal)
             e = relm(m1.covariance, m2.covariance)
             if e > 1e-6:
                 return 'ComplexBinghamTrainer.fit(c*y): parameter matrix differs by %.3g (relative)' % e, 'dist:bingham:fit', None
             return None, None, None
         if kind == 'vmf_fit':
-            m1 = d.VonMisesFisherTrainer().fit(y, saliency=sal)
-            m2 = d.VonMisesFisherTrainer().fit(cy, saliency=sal)
+            T1 = d.VonMisesFisherTrainer()
+            T2 = T1 if rp['seed'] % 2 == 0 else d.VonMisesFisherTrainer()
+            m1 = T1.fit(y, saliency=sal)
+            m2 = T2.fit(cy, saliency=sal)
             if rel(m1.mean, m2.mean) > tol or rel(m1.concentration, m2.concentration) > tol:
                 return ('VonMisesFisherTrainer.fit(c*y), c > 0: mean differs by %.3g, concentration by %.3g'
                         % (rel(m1.mean, m2.mean), rel(m1.concentration, m2.concentration))), 'dist:vmf:fit', None
